@@ -127,7 +127,8 @@ package document
 //@ func NewCardSecurity
 //@   trusted
 //@   ensures len(data) < 1 ==> out == nil && err == nil
-//@   ensures out != nil ==> err == nil && out.SecurityInfos != nil && out.RawData === data
+//@   ensures out != nil ==> err == nil && out.SecurityInfos != nil && out.SD != nil && out.RawData === data
+//@   ensures len(data) >= 1 ==> (out != nil) == (err == nil)
 //@   ensures fresh(out)
 //@   assigns nothing
 
@@ -180,6 +181,7 @@ package document
 //@   ensures "absent-file": len(data) < 1 ==> result0 == nil && result1 == nil
 //@   ensures "raw-bytes-are-a-private-copy": result0 != nil ==> result0.RawData === data && fresh(result0.RawData) && fresh(result0)
 //@   ensures "outer-tag-is-the-data-group-tag": result0 != nil ==> topCount(data) >= 1 && firstTag(data) == 117
+//@   ensures "object-or-error": len(data) >= 1 ==> (result0 != nil) == (result1 == nil)
 //@   ensures "one-view-per-template": result0 != nil ==> 1 <= len(result0.BITs) && len(result0.BITs) <= 9
 //@   ensures "last-template-exposes-exactly-one-encoding": result0 != nil ==>
 //@        ((result0.BITs[len(result0.BITs) - 1].BDB.Iso19794 != nil) != (result0.BITs[len(result0.BITs) - 1].BDB.Iso39794 != nil))
@@ -188,6 +190,8 @@ package document
 //@        ((out.BITs[occur - 2].BDB.Iso19794 != nil) != (out.BITs[occur - 2].BDB.Iso39794 != nil))
 //@   loop 1 invariant out.RawData === data && fresh(out.RawData) && fresh(out)
 //@   loop 1 decreases numInstances + 1 - occur
+//@   assigns nothing
+//@   trustedframe
 //@   safety all
 
 // the remaining template-based files: same three facts (private copy, outer tag, object or error) plus memory safety
@@ -198,6 +202,7 @@ package document
 //@   ensures "raw-bytes-are-a-private-copy": result0 != nil ==> result0.RawData === data && fresh(result0.RawData) && fresh(result0)
 //@   ensures "outer-tag-is-the-data-group-tag": result0 != nil ==> topCount(data) >= 1 && firstTag(data) == 96
 //@   ensures "object-or-error": len(data) >= 1 ==> (result0 != nil) == (result1 == nil)
+//@   assigns nothing
 //@   safety all
 
 //@ func NewDG7
@@ -209,6 +214,8 @@ package document
 //@   ensures "raw-bytes-are-a-private-copy": result0 != nil ==> result0.RawData === data && fresh(result0.RawData) && fresh(result0)
 //@   ensures "outer-tag-is-the-data-group-tag": result0 != nil ==> topCount(data) >= 1 && firstTag(data) == 103
 //@   ensures "object-or-error": len(data) >= 1 ==> (result0 != nil) == (result1 == nil)
+//@   assigns nothing
+//@   trustedframe
 //@   safety all
 
 //@ func NewDG12
@@ -217,6 +224,7 @@ package document
 //@   ensures "raw-bytes-are-a-private-copy": result0 != nil ==> result0.RawData === data && fresh(result0.RawData) && fresh(result0)
 //@   ensures "outer-tag-is-the-data-group-tag": result0 != nil ==> topCount(data) >= 1 && firstTag(data) == 108
 //@   ensures "object-or-error": len(data) >= 1 ==> (result0 != nil) == (result1 == nil)
+//@   assigns nothing
 //@   safety all
 
 //@ func NewDG14
@@ -226,6 +234,7 @@ package document
 //@   ensures "outer-tag-is-the-data-group-tag": dg14 != nil ==> topCount(data) >= 1 && firstTag(data) == 110
 //@   ensures "object-or-error": len(data) >= 1 ==> (dg14 != nil) == (err == nil)
 //@   ensures "security-infos-decoded": dg14 != nil ==> dg14.SecInfos != nil
+//@   assigns nothing
 //@   safety all
 
 //@ func NewDG16
@@ -234,6 +243,8 @@ package document
 //@   ensures "raw-bytes-are-a-private-copy": result0 != nil ==> result0.RawData === data && fresh(result0.RawData) && fresh(result0)
 //@   ensures "outer-tag-is-the-data-group-tag": result0 != nil ==> topCount(data) >= 1 && firstTag(data) == 112
 //@   ensures "object-or-error": len(data) >= 1 ==> (result0 != nil) == (result1 == nil)
+//@   assigns nothing
+//@   trustedframe
 //@   safety all
 
 // DG13 / DG15 are unwrapped with tlv.UnwrapTag: the outer tag is the first identifier octet(s) of the file, the length
@@ -298,6 +309,7 @@ package document
 //@   ensures "raw-bytes-are-a-private-copy": result0 != nil ==> result0.RawData === data && fresh(result0.RawData) && fresh(result0)
 //@   ensures "outer-tag-is-the-data-group-tag": result0 != nil ==> topCount(data) >= 1 && firstTag(data) == 107
 //@   ensures "object-or-error": len(data) >= 1 ==> (result0 != nil) == (result1 == nil)
+//@   assigns nothing
 //@   safety all
 
 
@@ -385,13 +397,140 @@ package document
 //@   ensures result1 == nil ==> result0 === dg1Country(ref(dg1.Mrz))
 //@   assigns nothing
 
-// Import of a serialised bundle (CBOR decoding is an external, reflection-driven library: trusted boundary here; the
-// envelope checks of this function are the subject of C15, not claimed).
-//@ func UnmarshalVerifiableDoc
-//@   trusted
-//@   ensures result2 == nil ==> result0 != nil && result1 != nil && fresh(result0) && fresh(result1)
-//@   ensures result2 == nil ==> (result0.Mf.Lds1.Dg14 != nil ==> result0.Mf.Lds1.Dg14.SecInfos != nil) && (result0.Mf.CardSecurity != nil ==> result0.Mf.CardSecurity.SecurityInfos != nil && result0.Mf.CardSecurity.SD != nil)
-//@        && (result0.Mf.CardAccess != nil ==> result0.Mf.CardAccess.SecurityInfos != nil) && (result0.Mf.Lds1.Sod != nil ==> result0.Mf.Lds1.Sod.SD != nil && result0.Mf.Lds1.Sod.LdsSecurityObject != nil)
-//@   ensures "evidence-objects-are-allocated": result2 == nil && result1.ActiveAuth != nil ==> allocated(result1.ActiveAuth) && allocated(result1.ActiveAuth.Nonce) && allocated(result1.ActiveAuth.Signature)
-//@   ensures result2 != nil ==> result0 == nil && result1 == nil
+
+
+// ---------------------------------------------------------------- C15: serialisation envelopes
+// Export writes only raw bytes: payload = CBOR record of the files' raw bytes; envelope = { magic, version, SHA-256(payload),
+// payload }. Import accepts only an envelope with the expected magic, a version not newer than supported and a digest equal
+// to SHA-256 of the payload, and then re-runs every file constructor on the payload's raw fields. The CBOR library is a
+// trusted boundary (specs/cbor.gvc: encoder / decoder functions and the library round trip as an axiom).
+//@ spec func magicRawDoc() seq { seq(103, 109, 114, 116, 100, 45, 114, 97, 119, 45, 100, 111, 99) }
+// raw bytes of each file of a document (empty when the file is absent)
+//@ spec func docRaw(doc *Document, k int) seq {
+//@     k == 0 ? (doc.Mf.CardAccess != nil ? doc.Mf.CardAccess.RawData : seq()) : (k == 1 ? (doc.Mf.CardSecurity != nil ? doc.Mf.CardSecurity.RawData : seq()) :
+//@    (k == 2 ? (doc.Mf.Dir != nil ? doc.Mf.Dir.RawData : seq()) : (k == 3 ? (doc.Mf.Lds1.Com != nil ? doc.Mf.Lds1.Com.RawData : seq()) :
+//@    (k == 4 ? (doc.Mf.Lds1.Sod != nil ? doc.Mf.Lds1.Sod.RawData : seq()) : (k == 5 ? dgRaw(doc, 1) : (k == 6 ? dgRaw(doc, 2) : (k == 7 ? dgRaw(doc, 7) :
+//@    (k == 8 ? dgRaw(doc, 11) : (k == 9 ? dgRaw(doc, 12) : (k == 10 ? dgRaw(doc, 13) : (k == 11 ? dgRaw(doc, 14) : (k == 12 ? dgRaw(doc, 15) : dgRaw(doc, 16))))))))))))) }
+//@ spec func docPayload(doc *Document) seq { cborRawDoc(docRaw(doc, 0), docRaw(doc, 1), docRaw(doc, 2), docRaw(doc, 3), docRaw(doc, 4), docRaw(doc, 5), docRaw(doc, 6),
+//@        docRaw(doc, 7), docRaw(doc, 8), docRaw(doc, 9), docRaw(doc, 10), docRaw(doc, 11), docRaw(doc, 12), docRaw(doc, 13)) }
+
+//@ func (doc *Document) ToCbor
+//@   props C15
+//@   requires doc != nil
+//@   ensures "envelope-of-the-raw-bytes": result1 == nil ==> result0 === cborEnv(magicRawDoc(), 1, hashF(5, docPayload(doc)), docPayload(doc))
+//@   ensures result1 != nil ==> result0 == nil
 //@   assigns nothing
+//@   safety all
+
+//@ func NewDocumentFromCbor
+//@   props C15 C12
+//@   ensures "object-or-error": (result1 == nil) == (result0 != nil)
+//@   proves "envelope-decoded": result1 == nil ==> envOK(data) && env.Magic === envMagic(data) && env.Version == envVersion(data) && env.SHA256 === envSha(data) && env.Payload === envPayload(data)
+//@   proves "envelope-checked": result1 == nil ==> env.Magic === magicRawDoc() && env.Version <= 1 && env.SHA256 === hashF(5, env.Payload)
+//@   proves "record-decoded": result1 == nil ==> rawDocOK(env.Payload) && raw.CardAccess === rawDocField(env.Payload, 0) && raw.CardSecurity === rawDocField(env.Payload, 1) && raw.Dir === rawDocField(env.Payload, 2)
+//@        && raw.Com === rawDocField(env.Payload, 3) && raw.Sod === rawDocField(env.Payload, 4) && raw.Dg1 === rawDocField(env.Payload, 5) && raw.Dg2 === rawDocField(env.Payload, 6) && raw.Dg7 === rawDocField(env.Payload, 7)
+//@        && raw.Dg11 === rawDocField(env.Payload, 8) && raw.Dg12 === rawDocField(env.Payload, 9) && raw.Dg13 === rawDocField(env.Payload, 10) && raw.Dg14 === rawDocField(env.Payload, 11)
+//@        && raw.Dg15 === rawDocField(env.Payload, 12) && raw.Dg16 === rawDocField(env.Payload, 13)
+//@   proves "file-CardAccess-rebuilt-from-the-record": result1 == nil ==> docRaw(result0, 0) === raw.CardAccess
+//@   proves "file-CardSecurity-rebuilt-from-the-record": result1 == nil ==> docRaw(result0, 1) === raw.CardSecurity
+//@   proves "file-Dir-rebuilt-from-the-record": result1 == nil ==> docRaw(result0, 2) === raw.Dir
+//@   proves "file-Com-rebuilt-from-the-record": result1 == nil ==> docRaw(result0, 3) === raw.Com
+//@   proves "file-Sod-rebuilt-from-the-record": result1 == nil ==> docRaw(result0, 4) === raw.Sod
+//@   proves "file-Dg1-rebuilt-from-the-record": result1 == nil ==> docRaw(result0, 5) === raw.Dg1
+//@   proves "file-Dg2-rebuilt-from-the-record": result1 == nil ==> docRaw(result0, 6) === raw.Dg2
+//@   proves "file-Dg7-rebuilt-from-the-record": result1 == nil ==> docRaw(result0, 7) === raw.Dg7
+//@   proves "file-Dg11-rebuilt-from-the-record": result1 == nil ==> docRaw(result0, 8) === raw.Dg11
+//@   proves "file-Dg12-rebuilt-from-the-record": result1 == nil ==> docRaw(result0, 9) === raw.Dg12
+//@   proves "file-Dg13-rebuilt-from-the-record": result1 == nil ==> docRaw(result0, 10) === raw.Dg13
+//@   proves "file-Dg14-rebuilt-from-the-record": result1 == nil ==> docRaw(result0, 11) === raw.Dg14
+//@   proves "file-Dg15-rebuilt-from-the-record": result1 == nil ==> docRaw(result0, 12) === raw.Dg15
+//@   proves "file-Dg16-rebuilt-from-the-record": result1 == nil ==> docRaw(result0, 13) === raw.Dg16
+//@   ensures "parsed-files-are-well-formed": result1 == nil ==> (result0.Mf.Lds1.Dg14 != nil ==> result0.Mf.Lds1.Dg14.SecInfos != nil)
+//@        && (result0.Mf.CardSecurity != nil ==> result0.Mf.CardSecurity.SecurityInfos != nil && result0.Mf.CardSecurity.SD != nil)
+//@        && (result0.Mf.CardAccess != nil ==> result0.Mf.CardAccess.SecurityInfos != nil)
+//@        && (result0.Mf.Lds1.Sod != nil ==> result0.Mf.Lds1.Sod.SD != nil && result0.Mf.Lds1.Sod.LdsSecurityObject != nil)
+//@   ensures fresh(result0)
+//@   assigns nothing
+//@   trustedframe
+//@   ensures "accepted-only-with-expected-magic-version-and-digest": result1 == nil ==> envOK(data) && envMagic(data) === magicRawDoc() && envVersion(data) <= 1
+//@        && envSha(data) === hashF(5, envPayload(data)) && rawDocOK(envPayload(data))
+//@   ensures "files-are-the-payloads-raw-bytes": result1 == nil ==> docRaw(result0, 0) === rawDocField(envPayload(data), 0) && docRaw(result0, 1) === rawDocField(envPayload(data), 1)
+//@        && docRaw(result0, 2) === rawDocField(envPayload(data), 2) && docRaw(result0, 4) === rawDocField(envPayload(data), 4) && docRaw(result0, 3) === rawDocField(envPayload(data), 3)
+//@        && docRaw(result0, 5) === rawDocField(envPayload(data), 5) && docRaw(result0, 6) === rawDocField(envPayload(data), 6) && docRaw(result0, 7) === rawDocField(envPayload(data), 7)
+//@        && docRaw(result0, 8) === rawDocField(envPayload(data), 8) && docRaw(result0, 9) === rawDocField(envPayload(data), 9) && docRaw(result0, 10) === rawDocField(envPayload(data), 10)
+//@        && docRaw(result0, 11) === rawDocField(envPayload(data), 11) && docRaw(result0, 12) === rawDocField(envPayload(data), 12) && docRaw(result0, 13) === rawDocField(envPayload(data), 13)
+//@   safety all
+
+// NewCardAccess is verified (DecodeSecurityInfos carries the ASN.1 boundary); NewSOD and NewEFDIR parse CMS / directory
+// structures and are trusted boundaries for the serialisation property: private copy of the bytes, (nil, nil) for an absent file.
+//@ func NewCardAccess
+//@   props C15 C19 C12
+//@   ensures "absent-file": len(data) < 1 ==> result0 == nil && result1 == nil
+//@   ensures "raw-bytes-are-a-private-copy": result0 != nil ==> result0.RawData === data && fresh(result0.RawData) && fresh(result0) && result0.SecurityInfos != nil
+//@   ensures "object-or-error": len(data) >= 1 ==> (result0 != nil) == (result1 == nil)
+//@   assigns nothing
+//@   safety all
+//@ func NewSOD
+//@   trusted
+//@   ensures len(data) < 1 ==> result0 == nil && result1 == nil
+//@   ensures result0 != nil ==> result1 == nil && result0.RawData === data && fresh(result0) && result0.SD != nil && result0.LdsSecurityObject != nil
+//@   ensures len(data) >= 1 ==> (result0 != nil) == (result1 == nil)
+//@   assigns nothing
+//@ func NewEFDIR
+//@   trusted
+//@   ensures len(data) < 1 ==> efDir == nil && err == nil
+//@   ensures efDir != nil ==> err == nil && efDir.RawData === data && fresh(efDir)
+//@   ensures len(data) >= 1 ==> (efDir != nil) == (err == nil)
+//@   assigns nothing
+
+//@ spec func magicEvidence() seq { seq(103, 109, 114, 116, 100, 45, 99, 104, 105, 112, 45, 97, 117, 116, 104, 45, 101, 118, 105, 100, 101, 110, 99, 101) }
+//@ spec func magicDocEx() seq { seq(103, 109, 114, 116, 100, 45, 118, 101, 114, 105, 102, 105, 97, 98, 108, 101, 45, 100, 111, 99) }
+
+// evidence bundle: the record itself stays abstract (reflection-driven CBOR of nested optional structures); verified here:
+// the envelope written / required (magic, version 2 exactly, SHA-256 of the payload) and memory safety for every decoded record.
+//@ func (session *Session) ChipAuthEvidenceToCbor
+//@   props C15
+//@   requires session != nil
+//@   proves "envelope-of-the-payload": result1 == nil ==> result0 === cborEnv(magicEvidence(), 2, hashF(5, payload), payload)
+//@   ensures result1 != nil ==> result0 == nil
+//@   ensures fresh(result0)
+//@   assigns nothing
+//@   safety all
+
+//@ func NewChipAuthEvidenceFromCbor
+//@   props C15 C12
+//@   ensures "object-or-error": (result1 == nil) == (result0 != nil)
+//@   ensures "accepted-only-with-expected-magic-version-and-digest": result1 == nil ==> envOK(data) && envMagic(data) === magicEvidence() && envVersion(data) == 2
+//@        && envSha(data) === hashF(5, envPayload(data))
+//@   ensures "evidence-objects-are-allocated": result1 == nil && result0.ActiveAuth != nil ==> allocated(result0.ActiveAuth)
+//@   ensures fresh(result0)
+//@   assigns nothing
+//@   safety all
+
+//@ func (docEx *DocumentEx) ToCbor
+//@   props C15
+//@   requires docEx != nil
+//@   proves "envelope-of-document-and-evidence": result1 == nil ==> payload === cborDocEx(docBytes, caBytes) && result0 === cborEnv(magicDocEx(), 1, hashF(5, payload), payload)
+//@   ensures result1 != nil ==> result0 == nil
+//@   assigns nothing
+//@   safety all
+
+//@ func UnmarshalVerifiableDoc
+//@   props C15 C12 C14
+//@   proves "envelope-decoded": result2 == nil ==> envOK(data) && env.Magic === envMagic(data) && env.Version == envVersion(data) && env.SHA256 === envSha(data) && env.Payload === envPayload(data)
+//@   proves "envelope-checked": result2 == nil ==> env.Magic === magicDocEx() && env.Version <= 1 && env.SHA256 === hashF(5, env.Payload)
+//@   proves "record-decoded": result2 == nil ==> docExOK(env.Payload) && raw.Document === docExDocument(env.Payload) && raw.ChipAuthEvidence === docExEvidence(env.Payload)
+//@   ensures "objects-or-error": (result2 == nil) == (result0 != nil) && (result2 == nil) == (result1 != nil)
+//@   ensures "accepted-only-with-expected-magic-version-and-digest": result2 == nil ==> envOK(data) && envMagic(data) === magicDocEx() && envVersion(data) <= 1
+//@        && envSha(data) === hashF(5, envPayload(data)) && docExOK(envPayload(data))
+//@   ensures "document-imported-from-the-inner-envelope": result2 == nil ==> envOK(docExDocument(envPayload(data))) && envMagic(docExDocument(envPayload(data))) === magicRawDoc()
+//@        && envSha(docExDocument(envPayload(data))) === hashF(5, envPayload(docExDocument(envPayload(data))))
+//@   ensures "evidence-imported-from-the-inner-envelope": result2 == nil ==> envOK(docExEvidence(envPayload(data))) && envMagic(docExEvidence(envPayload(data))) === magicEvidence()
+//@   ensures "parsed-files-are-well-formed": result2 == nil ==> (result0.Mf.Lds1.Dg14 != nil ==> result0.Mf.Lds1.Dg14.SecInfos != nil)
+//@        && (result0.Mf.CardSecurity != nil ==> result0.Mf.CardSecurity.SecurityInfos != nil && result0.Mf.CardSecurity.SD != nil)
+//@        && (result0.Mf.CardAccess != nil ==> result0.Mf.CardAccess.SecurityInfos != nil)
+//@        && (result0.Mf.Lds1.Sod != nil ==> result0.Mf.Lds1.Sod.SD != nil && result0.Mf.Lds1.Sod.LdsSecurityObject != nil)
+//@   ensures "evidence-objects-are-allocated": result2 == nil && result1.ActiveAuth != nil ==> allocated(result1.ActiveAuth)
+//@   ensures fresh(result0) && fresh(result1)
+//@   assigns nothing
+//@   safety all
